@@ -32,8 +32,12 @@ func (e *kvElection) logWithContext(ctx context.Context) []zap.Field {
 	}
 
 	// Add correlation ID if present in context
-	if correlationID := ctx.Value("correlation_id"); correlationID != nil {
-		fields = append(fields, zap.String("correlation_id", correlationID.(string)))
+	// ctx is nil once StopWithContext has cleared e.ctx; goroutines that are still
+	// winding down (in-flight store operations) must be able to log.
+	if ctx != nil {
+		if correlationID := ctx.Value("correlation_id"); correlationID != nil {
+			fields = append(fields, zap.String("correlation_id", correlationID.(string)))
+		}
 	}
 
 	return fields
